@@ -227,7 +227,7 @@ def run_ob(builder, ob, scratch, replay_dir, want_native=True):
     # Every attempt decides the same formula; only a verdict counts, a timeout never does.
     first = ob.backend
     if first == "z3":
-        ladder = [("z3", 0, 0.1), ("z3", 1, 0.1), ("z3", 2, 0.2), ("z3", 3, 0.6)]
+        ladder = [("z3", 0, 0.34), ("z3", 1, 0.33), ("z3", 2, 0.33)]
     elif first in (None, "minisat"):
         ladder = [(None, 0, 1.0), ("cadical", 0, 0.5)]
     elif first == "cadical":
